@@ -94,7 +94,13 @@ fn run_case<G: AffineRepr>(env: &Env<G>, c: &Case) -> CaseOut {
         ("crafted-c-false", "a+d".into(), Craft { da: Some(F::<G>::one()), ..Default::default() }),
         ("crafted-cancelling", "t_blind+d&e_blind-d".into(), Craft { dt: Some(d5), de: Some(-d5), ..Default::default() }),
         ("crafted-cancelling", "t_blind-1&e_blind+1".into(), Craft { dt: Some(-F::<G>::one()), de: Some(F::<G>::one()), ..Default::default() }),
+        ("crafted-tx-off", "t_x+d".into(), Craft { dtx: Some(d5), ..Default::default() }),
+        ("crafted-tx-off", "t_x-1".into(), Craft { dtx: Some(-F::<G>::one()), ..Default::default() }),
+        ("crafted-tx-off", "t_x+d&t_blind+d".into(), Craft { dtx: Some(d5), dt: Some(d5), ..Default::default() }),
     ];
+    for (k, nm) in [(0u8, "y"), (1, "z"), (2, "u"), (3, "x"), (4, "x^2")] {
+        crafts.push(("crafted-cancelling-weighted", format!("t_blind+d&e_blind-{}*d", nm), Craft { dt: Some(d5), de_weighted_by: Some(k), ..Default::default() }));
+    }
     let need = draws_needed(n1, n2);
     for (j, nm) in [(0usize, "zero-i_blinding1"), (1, "zero-o_blinding1"), (2, "zero-s_blinding1")] {
         crafts.push(("crafted-zero-blinding", nm.into(), Craft { zero_draws: vec![j], ..Default::default() }));
